@@ -249,7 +249,7 @@ Qed.
 
 (* move the head of .axes into .ixes / .cxes over an absent or already closed entry *)
 Lemma ok_move_ix s ca i h l' c :
-  axes s = (ca, false, i, h) :: l' -> c_id c = Some i ->
+  axes s = (ca, AOk, i, h) :: l' -> c_id c = Some i ->
   (forall c0, oget (ixes s) ca = Some c0 -> c_id c0 = None) ->
   ok_step s (set_ixes (set_axes s l') (oupd (ixes s) ca c)).
 Proof.
@@ -261,7 +261,7 @@ Proof.
     rewrite (Hold _ H1) in H2. discriminate.
 Qed.
 Lemma ok_move_cx s ca i h l' c :
-  axes s = (ca, false, i, h) :: l' -> c_id c = Some i ->
+  axes s = (ca, AOk, i, h) :: l' -> c_id c = Some i ->
   (forall c0, oget (cxes s) ca = Some c0 -> c_id c0 = None) ->
   ok_step s (set_cxes (set_axes s l') (oupd (cxes s) ca c)).
 Proof.
@@ -287,10 +287,11 @@ Lemma ok_axes_body tls s e l' :
   axes s = e :: l' -> ok_step s (fst (axes_body tls (set_axes s l') e)).
 Proof.
   intros Ha. destruct e as [[[ca bad] i] h]. unfold axes_body.
-  destruct bad; cbn [fst].
-  - apply ok_same_opened; [reflexivity| |].
+  assert (Hdrop : ok_step s (add_closed (set_axes s l') [i])).
+  { apply ok_same_opened; [reflexivity| |].
     + intros j H. cbn. rewrite in_app_iff. tauto.
-    + intros j H. heldsimp. rewrite Ha in H. cbn in H. rewrite in_app_iff. cbn. tauto.
+    + intros j H. heldsimp. rewrite Ha in H. cbn in H. rewrite in_app_iff. cbn. tauto. }
+  destruct bad; cbn [fst]; try exact Hdrop.
   - destruct tls; cbn [fst].
     + rewrite close_cx_if_set_axes. cbn [cxes set_axes].
       eapply ok_trans; [apply (ok_close_cx_if s ca)|].
@@ -493,8 +494,9 @@ Lemma cxes_axes_loop_plain fuel : forall s, cxes (fst (axes_loop false fuel s)) 
 Proof.
   induction fuel as [|f IH]; intros s; simpl; [reflexivity|].
   destruct (axes s) as [|[[[ca bad] i] h] l']; [reflexivity|].
-  unfold axes_body. destruct bad; cbn [fst]; [reflexivity|].
-  rewrite IH. cbn [cxes set_ixes]. now rewrite cxes_close_ix_if.
+  unfold axes_body. destruct bad; cbn [fst]; try reflexivity.
+  - rewrite IH. cbn [cxes set_ixes]. now rewrite cxes_close_ix_if.
+  - rewrite IH. reflexivity.
 Qed.
 Lemma cxes_recv_loop t o ks : forall s, cxes (fst (recv_loop s t o ks)) = cxes s.
 Proof.
